@@ -84,7 +84,7 @@ fn o_program(c: &ProgramCase, st: &mut Stats) -> Result<(), String> {
     }
 }
 
-pub const NAME_ALPHABET: &[char] = &['a', 'A', '1', '-', '_', '.', 'É', 'ǅ', 'é'];
+pub const NAME_ALPHABET: &[char] = &['a', 'A', '1', '-', '_', '.', 'É', 'ǅ', 'é', 'Σ', '\u{212A}'];
 
 #[derive(Clone, Debug, Serialize, Deserialize)]
 pub struct NameCase {
